@@ -184,6 +184,9 @@ func run(c *vf.Ctx) {
 			c.Sample(map[string]any{"history_seed": seed, "first_blocks": h.Blocks[:3]})
 		}
 	})
+	keeperPhase(c)
+	c.RequireCounter("keeper_op:mult", 100)
+	c.Assume("bank.MsgMultiSend is not amino-registered, so it cannot travel in a transaction; multi-input transfers (incl. one address in several inputs) are driven on the bank handler/keeper directly in the keeper-level phase")
 	c.Assume("the ledger is decoded from raw main-store bytes with the production amino codec for account objects; balance and supply values are fixed-width big-endian as documented in bank/balance.go")
 	c.Assume("ugnot is the only account-tier denomination (compiled-in allowlist of gno.land)")
 	c.RequireCounter("ledgers_checked", 20)
